@@ -201,7 +201,8 @@ class C09(Property):
         # finite-projection membership with zero padding: every centre inside the cell lies in exactly one slice interval,
         # a centre on a boundary in the upper one
         inside = [k for k, z in enumerate(zs) if 0 <= z < H]
-        if inside:
+        seq_off = isinstance(st, list) and abs(sum(ts) - H) > 1e-9 * max(1.0, H)  # recorded finding, reported below
+        if inside and not seq_off:
             sl = SlicedAtoms(mk_atoms(zs, H), tuple(ts), z_padding=0.0)
             mem = [idx_of(sl.get_atoms_in_slices(i)) for i in range(len(ts))]
             cnt = {k: sum(m.count(k) for m in mem) for k in inside}
@@ -217,14 +218,22 @@ class C09(Property):
                         ctx.violation("boundary-centre-not-in-upper-slice-interval", case, {"atom": k, "z": zs[k]})
                         return
         if abs(sum(ts) - H) > 1e-9 * max(1.0, H):
-            ctx.violation("thickness-sum-ne-height", case, {"sum": float(sum(ts)), "H": H})
-            return
+            # explicit sequences are accepted within np.isclose (recorded finding); scalars must sum exactly
+            ctx.violation("accepted-thickness-sequence-sum-ne-height" if isinstance(st, list) else "thickness-sum-ne-height", case,
+                          {"sum": float(sum(ts)), "H": H})
+            if not isinstance(st, list):
+                return
         sa = sa0
         members = [idx_of(sa.get_atoms_in_slices(i)) for i in range(len(ts))]
         count = {k: sum(m.count(k) for m in members) for k in range(len(zs))}
         ctx.evaluations += 1
         if any(c != 1 for c in count.values()):
-            ctx.violation(f"atom-not-in-exactly-one-slice-{case.get('projection', 'infinite')}", case,
+            missing = [k for k, c in count.items() if c == 0]
+            short = isinstance(st, list) and float(sum(ts)) < H and all(c in (0, 1) for c in count.values()) and \
+                all(float(sum(ts)) - 1e-11 <= (zs[k] % H) < H for k in missing)
+            key = "accepted-short-thickness-sequence-drops-atom" if short else \
+                f"atom-not-in-exactly-one-slice-{case.get('projection', 'infinite')}"
+            ctx.violation(key, case,
                           {"slices_per_atom": count, "z": {k: zs[k] for k, c in count.items() if c != 1}})
             return
         cum = np.cumsum(ts)
@@ -284,6 +293,18 @@ class C09(Property):
             self.oracle_slices(ctx, c)
             ctx.case(c)
             ctx.count("conf-slices")
+        # explicit sequences whose sum is short of / beyond the cell height but inside the np.isclose tolerance of
+        # _validate_slice_thickness (the short ones are the recorded finding; the long ones must still partition the atoms)
+        for i in range(ctx.n(6, 60)):
+            H = float(rng.choice([4, 8, 10]))
+            ts = gen_ts(rng, H, 4)
+            d = rng.choice([-1, 1]) * H * rng.choice([1e-6, 5e-6])
+            ts = ts[:-1] + [ts[-1] + d]
+            zs = [rng.uniform(0, H - 2e-5 * H) for _ in range(rng.randint(1, 4))] + [H - abs(d) / 2]
+            c = {"H": H, "st": ts, "zs": zs, "projection": "infinite"}
+            self.oracle_slices(ctx, c)
+            ctx.case(c)
+            ctx.count(f"conf-slices:sum-off-by-{'short' if d < 0 else 'long'}")
         for i in range(ctx.n(8, 60)):
             H = float(rng.choice([2, 3, 4]))
             c = dict(aseed=rng.randint(0, 10 ** 6), H=H, na=rng.randint(1, 4), nb=rng.randint(1, 4), elements=rng.choice([[6], [6, 14], [14, 8, 6]]),
